@@ -2,7 +2,7 @@ SPECIFICATION SpecMC
 CONSTANTS
   MaxSteps = 3
   Depth = 0
-  OpNames = {"AddParagraph", "AddMathFormula", "AddListItem", "AddFootnote", "AddEndnote", "SetTitle", "AddFormattedHeader", "AddFooter", "RemoveFootnote", "PageSet", "AddHeader", "AddFooterWithPageNumber", "AddImage", "AddCellImage", "SetFootnoteConfig", "UpdateStatistics", "AddTemplateBits", "Save", "ToBytes", "AddStyle", "Reopen", "Render", "RenderText", "ConvertMd"}
+  OpNames = {"AddParagraph", "AddMathFormula", "AddListItem", "AddFootnote", "AddEndnote", "SetTitle", "AddFormattedHeader", "AddFooter", "RemoveFootnote", "PageSet", "AddHeader", "AddFooterWithPageNumber", "AddImage", "AddCellImage", "SetFootnoteConfig", "UpdateStatistics", "AddTemplateBits", "Save", "ToBytes", "AddStyle", "EditStyle", "Reopen", "Render", "RenderText", "ConvertMd"}
   TextC = {"xmlmeta", "ctrl"}
   KindC = {"default", "first"}
   FmtC = {"png", "jpeg", "gif", "other", "unset"}
@@ -12,6 +12,8 @@ CONSTANTS
   StyleViaC = {"custom"}
   PageC = {"SetPageMargins"}
   ReopenC = {"mem"}
+  SpellC = {"abs", "extra", "min"}
+  StyleEdC = {"readd"}
   RenderViaC = {"doc", "legacy"}
   RenderImgC = {"none", "png"}
   PrepC = {TRUE, FALSE}
@@ -21,6 +23,6 @@ CONSTANTS
   FirstC = {}
   LastC = {}
   Design = "byformat"
-INVARIANTS Inv_C01 Inv_Shape Inv_By
-PROPERTIES Act_Grow Act_Fail Act_Save Act_Frame Act_New Act_CT
+INVARIANTS Inv_C01 Inv_Shape Inv_By Inv_Org
+PROPERTIES Act_Grow Act_Fail Act_Save Act_Frame Act_New Act_CT Act_Reopen Act_Style Act_Org
 CHECK_DEADLOCK FALSE
